@@ -904,6 +904,9 @@ def run_round_trip(ctx, cases, static_defects, kw2cls, timeout_each=25):
                 c.bin_orig = vlib.table_dicts(ro["tables"]["97"])
                 for tag in ("bin", "ser"):
                     rr = rbn.get(tag) or {}
+                    if rr.get("rc") != 0 and nonconvergence(rr.get("err")):
+                        stats["followup_nonconvergence_on_copy"] = stats.get("followup_nonconvergence_on_copy", 0) + 1
+                        continue        # the solver gives up in the fresh instance (other start point): inconclusive for C10
                     if rr.get("rc") != 0 or "97" not in (rr.get("tables") or {}):
                         add(c, "followup:%s:error:%s" % (tag, err_signature(rr.get("err"))), "follow-up RUN_CELLS fails on the %s copy but not on the original" % tag,
                             (rr.get("err") or "")[:600], "same results", {"followup": c.follow})
